@@ -110,19 +110,34 @@ def d1_comparators(ctx):
         else:
             kinds["range"] = cmp_
             okabs = isinstance(cmp_.left, ast.Call) and call_name(cmp_.left) in ("abs", "absolute") and loc_name(cmp_.left.args[0]) == "data"
-            ev = Evaluator(resolve=lambda e: repo.resolve_expr(fi, e))
+            # value of the threshold at the comparison: run the straight-line code before it (a scaled copy held in a local is fine)
+            from sa.algebra import SymExec
+            ev = Evaluator(env={"max_voltage": Poly.sym("MV")}, resolve=lambda e: repo.resolve_expr(fi, e))
+            sx = SymExec(ev, on_undecided="havoc")
+            stmt_of_cmp = du.cfg.node_for(cmp_).stmt
+            for st_ in fi.node.body:
+                if st_ is stmt_of_cmp:
+                    break
+                if isinstance(st_, ast.Expr) and isinstance(st_.value, ast.Constant):
+                    continue
+                sx.step(st_)
             try:
                 r = ev.ev(cmp_.comparators[0])
             except Undecided:
                 r = None
-            okr = r is not None and r == Poly.sym("max_voltage") * Poly.const(0.98)
+            okr = r is not None and r == Poly.sym("MV") * Poly.const(0.98)
             ctx.check(okabs and okr and isinstance(cmp_.ops[0], ast.Gt), fi, cmp_, cmp_, "range test is |data| > 0.98 * full scale (strict)",
                       f"range test `{src(cmp_)}` is not |data| > max_voltage * 0.98", key="range")
     ctx.check(set(kinds) == {"range", "slew"}, fi, comb[2], f"tests {sorted(kinds)}", "both the range and the slew test take part", f"only {sorted(kinds)} take part", key="both")
     # max_voltage broadcast per channel
-    mv = [d for d in du.defs if d.var == "max_voltage" and d.kind == "assign"]
-    okb = bool(mv) and "atleast_1d" in src(mv[0].value) and "newaxis" in src(mv[0].value)
-    ctx.check(okb, fi, mv[0].stmt if mv else fi.node, mv[0].stmt if mv else "max_voltage", "per-channel full scale is broadcast along time", "per-channel full scale is not broadcast along the channel axis",
+    from sa.common import aliases_param
+    okb = False
+    for sub in find(fi.node, ast.Subscript, nested=False):
+        el = sub.slice.elts if isinstance(sub.slice, ast.Tuple) else [sub.slice]
+        if len(el) == 2 and isinstance(el[1], ast.Attribute) and el[1].attr == "newaxis" or (len(el) == 2 and isinstance(el[1], ast.Constant) and el[1].value is None):
+            if aliases_param(repo, fi, du, sub.value, sub, ("max_voltage",)) or "max_voltage" in src(sub.value):
+                okb = True
+    ctx.check(okb, fi, fi.node, "<full scale>[:, np.newaxis]", "per-channel full scale is broadcast along time", "per-channel full scale is not broadcast along the channel axis",
               key="broadcast")
 
 
@@ -196,6 +211,26 @@ def d2_d3_mute(ctx):
               "first returned value is not the combined boolean flags", key="ret-flags")
 
 
+def d5_purity(ctx):
+    ctx.rule("D5", "saturation does not modify its arguments in place (the flags of a call must not depend on earlier calls)")
+    repo = ctx.repo
+    from sa.common import param_mutations, shared_returning
+    fi = repo.fn(FN)
+    muts = param_mutations(repo, fi, ("data", "max_voltage"))
+    if not muts:
+        ctx.ok(fi, fi.node, "no in-place operation on data / max_voltage or their views", "arguments are left untouched", key="purity")
+    for st, tgt, p in muts:
+        ctx.violation(fi, st, st, f"`{src(st)[:60]}` modifies in place an array that may be the caller's `{p}` (np.atleast_1d / asarray / views return the same buffer for an "
+                      "ndarray argument): a per-channel range reused across batches is scaled again on every call, so the 98 % threshold - and the flags - depend on the call history",
+                      key="purity:" + p, name_free=False)
+    # the full-scale vector handed out by the reader is recomputed on each access (not a cached, shared array)
+    fr = repo.fn("spikeglx.Reader.range_volts")
+    sh = shared_returning(repo)
+    ctx.check("spikeglx.Reader.range_volts" not in sh, fr, fr.node, "Reader.range_volts is a plain property", "each access returns a fresh vector",
+              "Reader.range_volts is memoised: every caller shares one array, so any in-place use downstream corrupts the full-scale values for the rest of the session",
+              key="range-volts-fresh")
+
+
 def d4_callsite(ctx):
     ctx.rule("D4", "call site: data and full-scale vector cut by the same column bound; unpack order (flags, mute); range_volts = sample2volts * max-int")
     repo = ctx.repo
@@ -251,3 +286,4 @@ def run(ctx):
     ctx.run(d1_comparators)
     ctx.run(d2_d3_mute)
     ctx.run(d4_callsite)
+    ctx.run(d5_purity)
